@@ -221,9 +221,11 @@ fn main() {
     let args = parse_args();
     let idxs: Vec<u64> = match args.only { Some(i) => vec![i], None => (0..args.n).collect() };
     let cases: Vec<Case> = idxs.iter().map(|i| gen_case(args.seed, *i)).collect();
+    // vcheck gives every shard 900 s of coqc: keep a shard at <= 1500 cases (about 1-2 min CPU)
+    let shards = std::cmp::max(16, (cases.len() + 1499) / 1500);
     write_cases(
         &args, "C16",
         "From Coq Require Import ZArith NArith String List.\nFrom Falcon Require Import Base.Res IL.Const Mem.Backing Mem.C16Check.\nImport ListNotations.\nLocal Open Scope string_scope.\nLocal Open Scope Z_scope.\nLocal Open Scope list_scope.",
-        "ck", &cases, 16, serde_json::json!({}),
+        "ck", &cases, shards, serde_json::json!({}),
     );
 }
